@@ -399,7 +399,7 @@ def share_sum_blocks(B, env, S, direction):
 # ---- C14 scale statistics ---------------------------------------------------------------
 
 
-def scale_blocks(B, env, cc, values, orientation, what, means=None):
+def scale_blocks(B, env, cc, values, orientation, what, means=None, counts=None):
     """respondent-level statistics of the opposing dimension's numeric values per vector:
     'mean'  = sum_D v c / sum_D c
     'sd'    = sqrt( sum_D c (v - mean)^2 / sum_D c )        (population standard deviation)
@@ -407,13 +407,24 @@ def scale_blocks(B, env, cc, values, orientation, what, means=None):
     'rows'), base columns then column subtotals ('columns').  A difference subtotal has no
     base in its own direction: NaN."""
     rows, cols = env.rows, env.cols
-    cnt_b = count_blocks(B, env, cc)
     rd = B.rd
-    if orientation == "rows":
+    if counts is not None:
+        # the comparable-count blocks as delivered by their own contract (opaque here): block 0
+        # base vectors, block 1 subtotal vectors; a difference vector arrives as NaN counts
+        no = lambda x: False
+        if orientation == "rows":
+            n_opp = env.C
+            vec_blocks = [(env.R, lambda i, j: rd(counts[0], i, j), no), (rows.S, lambda s, j: rd(counts[1], s, j), no)]
+        else:
+            n_opp = env.R
+            vec_blocks = [(env.C, lambda j, i: rd(counts[0], i, j), no), (cols.S, lambda t, i: rd(counts[1], i, t), no)]
+    elif orientation == "rows":
+        cnt_b = count_blocks(B, env, cc)
         n_opp = env.C
         vec_blocks = [(env.R, lambda i, j: rd(cnt_b[0][0], i, j), lambda i: False),
                       (rows.S, lambda s, j: rd(cnt_b[1][0], s, j), lambda s: rows.is_diff(s))]
     else:
+        cnt_b = count_blocks(B, env, cc)
         n_opp = env.R
         vec_blocks = [(env.C, lambda j, i: rd(cnt_b[0][0], i, j), lambda j: False),
                       (cols.S, lambda t, i: rd(cnt_b[0][1], i, t), lambda t: cols.is_diff(t))]
